@@ -59,6 +59,14 @@ func (d *c19Delegate) GenerateRequests(ctx context.Context, _ *scan.Range) (<-ch
 	if d.fail[ps.idx] {
 		ps.failed = true
 		simrt.Fault("gen-fail")
+		// (the delegate's own reasons may look like a cancel - its bounded open of the target list
+		// timed out, a helper of its own was cancelled - while the scan's context is alive)
+		switch ps.idx % 3 {
+		case 1:
+			return nil, fmt.Errorf("open target list for pass %d: %w", ps.idx, context.DeadlineExceeded)
+		case 2:
+			return nil, fmt.Errorf("pass %d: lookup helper: %w", ps.idx, context.Canceled)
+		}
 		return nil, &idErr{"pass", ps.idx}
 	}
 	// a fresh permutation per pass
@@ -243,7 +251,7 @@ func runC19Lib(t *testing.T, c simrt.Chooser, o Opts) *Out {
 	errReqs := 0
 	for k, rc := range recvs {
 		if rc.err != "" {
-			if rc.cancelled && strings.Contains(rc.err, "context canceled") {
+			if rc.cancelled && rc.err == context.Canceled.Error() {
 				continue // the delegate's own refusal of the pass that was due at the cancel
 			}
 			errReqs++
